@@ -15,7 +15,7 @@ EXPLANATION = (
     "cloning of KeyId (and KeyText) touch only the byte field with the corresponding std operation. R13.5: the id headers "
     ".lid./.pid./.sid. are pairwise distinct. Does not decide the hash functions themselves.")
 ASSUMPTIONS = ["rustc type checking / MIR construction are correct", "the specification table sa/spec.py", "library hashes named X compute X"]
-FLOORS = {"R13.1": 8, "R13.2": 2, "R13.3": 3, "R13.4": 8, "R13.5": 1}
+FLOORS = {"R13.1": 8, "R13.2": 2, "R13.3": 3, "R13.4": 8, "R13.5": 1, "R13.6": 16}
 VERSION_OF = {"v1": "v1", "v2": "v2", "v3": "v3", "v3-aws-lc": "v3", "v4": "v4", "v4-sodium": "v4"}
 
 def run(ctx):
@@ -93,6 +93,14 @@ def run(ctx):
     for rule, k, ok, detail, site in sc.f:
         if k in ("C09/mirror/KeyId", "C09/remainder/KeyId", "C09/keyid-33", "C09/b64/decode"):
             ctx.add("R13.3", "C13/text/" + k.split("/", 1)[1], ok, detail, site)
+    # ---------------- R13.6 the id is taken over the canonical re-encoding: that must be the supplied encoding
+    import keyrules
+    for be, cn in BACKENDS.items():
+        for kind in ("Local", "Public", "Secret"):
+            if be == "v1" and kind != "Local":
+                continue      # DER re-encoding is canonicalising by design (PEM input allowed)
+            ok, why, f = keyrules.encode_decode_identity(w, cn, kind)
+            ctx.add("R13.6", f"C13/canonical-reencoding/{be}/{kind}", ok, why, site_of(f) if f else None)
     # ---------------- R13.4 comparison impls
     want = {
         "<paserk::id::KeyId<V, K> as core::cmp::PartialEq>::eq": ("call", "core::array::equality::<impl PartialEq for [u8; 33]>::eq", (("fld", ("in", "self"), 0), ("fld", ("in", "other"), 0))),
